@@ -571,6 +571,7 @@ int c06_dump(uint64_t seed, uint64_t run, const std::string &outdir) {
 	Plan p = sc.generate(seed, run, "quick");
 	p.property = "C06"; p.seed = seed; p.run = run;
 	if (p.scenario != "cli") return 3;
+	if (!p.gets("fsfaults").empty()) return 3;   // an injected system-call failure has no counterpart in the real run
 	Opts op = parse_cmd(p.argv[1]);
 	if (!op.w.empty() && op.w[0] == '/') return 3;   // absolute w= cannot be relocated into a scratch directory
 	begin_run(p);
@@ -581,6 +582,7 @@ int c06_dump(uint64_t seed, uint64_t run, const std::string &outdir) {
 	if (r.budget) return 3;
 	{ std::ofstream f(outdir + "/archive.lzh", std::ios::binary); f.write((const char *) a.bytes.data(), (std::streamsize) a.bytes.size()); }
 	std::ofstream s(outdir + "/spec.txt");
+	s << "rootmode " << p.geti("rootmode", 0755) << "\n";
 	s << "euid " << p.geti("euid") << "\numask " << p.geti("umask", 022) << "\ntz " << p.gets("tz", "UTC") << "\nstatus " << r.status << " " << (int) r.exited << "\n";
 	s << "stdin " << (p.stdin_script.empty() ? "-" : hex_encode(p.stdin_script)) << "\n";
 	for (auto &x : p.argv) s << "argv " << hex_encode(x) << "\n";
